@@ -113,6 +113,18 @@ void *bsearch(const void *key, const void *base, size_t nmemb, size_t size, int 
     if (c == 0) return (void *)e; if (c < 0) hi = mid; else lo = mid + 1; }
   return 0;
 }
+/* qsort: insertion sort with the REAL comparator, element size <= 96 bytes */
+void qsort(void *base, size_t nmemb, size_t size, int (*compar)(const void *, const void *)) {
+  char tmp[96]; char *b = (char *)base;
+  __CPROVER_assert(size <= 96, "qsort model: element size <= 96");
+  for (size_t i = 1; i < nmemb; i++) {
+    size_t j = i;
+    while (j > 0 && compar(b + (j - 1) * size, b + j * size) > 0) {
+      for (size_t k = 0; k < size; k++) { tmp[k] = b[(j - 1) * size + k]; b[(j - 1) * size + k] = b[j * size + k]; b[j * size + k] = tmp[k]; }
+      j--;
+    }
+  }
+}
 #endif
 #endif /* VERIF_REPLAY */
 
